@@ -675,6 +675,11 @@ def check_guards(run, A):
                 st = seen.setdefault(key, dict(fn=c.fn, t=t, signs=set(), data=False, desc=set(), what=what))
                 st['signs'].add(dv.sign)
                 st['desc'] |= operand_descriptor(opnd, ev, c)
+                m_ = dv.meta
+                if isinstance(m_, tuple) and m_ and m_[0] == 'maximum':
+                    for x_ in m_[1:3]:
+                        if getattr(x_, 'is_const', False) and isinstance(x_.cval, float) and 0 < x_.cval < 1.1754944e-38:
+                            st['hint'] = f' (the floor {x_.cval!r} is a python float: compared with single-precision data it is cast to float32, where it is 0.0)'
                 if any(d[0] in ('param', 'field', 'rng') for d in dv.deps):
                     st['data'] = True
     n_guarded = n_pre = n_lic = 0
@@ -700,7 +705,7 @@ def check_guards(run, A):
         else:
             run.violation('R-SIGN', inst, fn.loc(t.node),
                           f'data-dependent {st["what"]} without a positive floor (sign: {sorted(map(str, st["signs"]))}, operand kind: {sorted(descs)}); '
-                          f'a zero operand yields NaN/Inf instead of a valid affiliation',
+                          f'a zero operand yields NaN/Inf instead of a valid affiliation{st.get("hint", "")}',
                           construct=f'R-SIGN::{fq}::{st["what"]}::{"|".join(sorted(descs))}')
     run.floor('guarded data-dependent divisions / logarithms', n_guarded, 12)
     run.count('divisions by class masses (preconditioned)', n_pre)
